@@ -5,6 +5,7 @@ import (
 	"fmt"
 	"path"
 	"sort"
+	"strconv"
 	"strings"
 	"time"
 
@@ -28,6 +29,7 @@ type tsResp struct {
 	inv, ret      int
 	lo, hi        uint64
 	stride        uint64
+	view          map[string]bool // global only: dc-locations in the serving member's view when the request was sent
 }
 
 func compose(phys, logical int64) uint64 { return uint64(phys)<<logicalBits + uint64(logical) }
@@ -53,17 +55,19 @@ type tsoOracle struct {
 	// leader records: leader key -> current owner value and node
 	leaderVal map[string]string
 	// etcd-side lease ownership per leader key: intervals in which a node's campaign lease was alive
-	leases   map[int64]*leaseOwn    // lease id -> owner
-	keyLease map[string][]*leaseOwn // leader key -> leases that ever held it
-	memberOf map[string]int         // member value -> node
-	suffixes map[string]string      // dc -> suffix value once assigned
-	maxTS    uint64
+	leases      map[int64]*leaseOwn    // lease id -> owner
+	keyLease    map[string][]*leaseOwn // leader key -> leases that ever held it
+	memberOf    map[string]int         // member value -> node
+	suffixes    map[string]string      // dc -> suffix value once assigned
+	maxTS       uint64
+	lastElected map[string]int // allocator -> step of its latest successful campaign
+	suffixStep  map[string]int
 }
 
 func newTSOOracle(rc *core.RunCtx, e *Env) *tsoOracle {
 	o := &tsoOracle{rc: rc, e: e, all: map[string][]tsResp{}, prefMax: map[string][]uint64{}, rets: map[string][]int{},
 		stored: map[string]int64{}, ackedFloor: map[string]int64{}, leaderVal: map[string]string{}, leases: map[int64]*leaseOwn{}, keyLease: map[string][]*leaseOwn{},
-		memberOf: map[string]int{}, suffixes: map[string]string{}}
+		memberOf: map[string]int{}, suffixes: map[string]string{}, lastElected: map[string]int{}, suffixStep: map[string]int{}}
 	e.W.Etcd.OnCommit = append(e.W.Etcd.OnCommit, o.onCommit)
 	return o
 }
@@ -153,6 +157,9 @@ func (o *tsoOracle) onCommit(c *simetcd.Commit) {
 					rc.Violate("c05.suffix", "suffix-shared", "datacenters %s and %s share suffix %s", odc, dc, sv)
 				}
 			}
+			if _, ok := o.suffixes[dc]; !ok {
+				o.suffixStep[dc] = c.Step
+			}
 			o.suffixes[dc] = string(ch.Cur.Value)
 		}
 		if isLeaderKey(key) {
@@ -161,6 +168,11 @@ func (o *tsoOracle) onCommit(c *simetcd.Commit) {
 				rc.Violate("c03.campaign", "leader-record-overwritten", "leader record %s overwritten: %q -> %q by node %d", key, ch.Prev.Value, ch.Cur.Value, c.Node)
 			}
 			if ch.Cur != nil {
+				if path.Base(key) == "leader" {
+					o.lastElected["global"] = c.Step
+				} else {
+					o.lastElected[path.Base(key)] = c.Step
+				}
 				o.leaderVal[key] = string(ch.Cur.Value)
 				if ch.Cur.Lease != 0 {
 					lo := &leaseOwn{node: c.Node, from: c.Step, to: -1}
@@ -290,8 +302,42 @@ func (o *tsoOracle) observe(r tsResp) {
 			}
 			for _, a := range same {
 				if a.lo <= r.hi && r.lo <= a.hi && intersects(a, r) {
-					rc.Violate("c01.unique", "overlapping-ranges", "%s: ranges overlap: [%d.%d count %d] (steps %d-%d node %d) and [%d.%d count %d] (steps %d-%d node %d)",
-						r.alloc, a.phys, a.logical, a.count, a.inv, a.ret, a.node, r.phys, r.logical, r.count, r.inv, r.ret, r.node)
+					note := ""
+					if a.bits != r.bits {
+						note = fmt.Sprintf(" (the two responses were differentiated with different suffix widths: %d and %d bits)", a.bits, r.bits)
+					}
+					rc.Violate("c01.unique", "overlapping-ranges", "%s: ranges overlap: [%d.%d count %d] (steps %d-%d node %d) and [%d.%d count %d] (steps %d-%d node %d)%s",
+						r.alloc, a.phys, a.logical, a.count, a.inv, a.ret, a.node, r.phys, r.logical, r.count, r.inv, r.ret, r.node, note)
+					return
+				}
+			}
+		}
+		if o.c05 {
+			// the suffix width reported with a timestamp is large enough for every suffix in use (at least its own)
+			// every suffix assigned before the request began
+			for dc, sv := range o.suffixes {
+				if o.suffixStep[dc] >= r.inv {
+					continue
+				}
+				if sfx, err := strconv.Atoi(sv); err == nil && sfx > 0 && (1<<r.bits) <= sfx && dc != r.alloc {
+					rc.Violate("c05.suffix", "suffix-width-too-small", "%s granted [%d.%d count %d] reporting %d suffix bits although suffix %d was assigned to %s at step %d (node %d)", r.alloc, r.phys, r.logical, r.count, r.bits, sfx, dc, o.suffixStep[dc], r.node)
+					return
+				}
+			}
+			if sv, ok := o.suffixes[r.alloc]; ok {
+				if sfx, err := strconv.Atoi(sv); err == nil && sfx > 0 && (1<<r.bits) <= sfx {
+					note := ""
+					if n := o.e.W.Nodes[r.node]; n.Srv != nil {
+						vm := n.Srv.SimTSOManager().SimMaxSuffix()
+						need := 0
+						for (1 << need) <= vm {
+							need++
+						}
+						if vm < sfx && int(r.bits) == need {
+							note = fmt.Sprintf(" (the serving member's in-memory max-suffix view is %d, below the allocator's own suffix)", vm)
+						}
+					}
+					rc.Violate("c05.suffix", "suffix-width-too-small", "local %s (suffix %d) granted [%d.%d count %d] reporting %d suffix bits (node %d)%s", r.alloc, sfx, r.phys, r.logical, r.count, r.bits, r.node, note)
 					return
 				}
 			}
@@ -335,20 +381,34 @@ func (o *tsoOracle) checkC05(r tsResp) {
 		}
 		for _, a := range rs {
 			if a.lo <= r.hi && r.lo <= a.hi && intersects(a, r) {
-				rc.Violate("c05.unique", "equal-timestamps-across-allocators", "%s [%d.%d count %d bits %d] and %s [%d.%d count %d bits %d] share a value",
-					a.alloc, a.phys, a.logical, a.count, a.bits, r.alloc, r.phys, r.logical, r.count, r.bits)
+				note := ""
+				if a.bits != r.bits {
+					note = " (the two responses were differentiated with different suffix widths)"
+				}
+				rc.Violate("c05.unique", "equal-timestamps-across-allocators", "%s [%d.%d count %d bits %d] and %s [%d.%d count %d bits %d] share a value%s",
+					a.alloc, a.phys, a.logical, a.count, a.bits, r.alloc, r.phys, r.logical, r.count, r.bits, note)
 				return
 			}
 			// a completed before r began
 			if a.ret < r.inv {
 				if r.alloc == "global" && a.alloc != "global" && a.hi >= r.lo {
-					rc.Violate("c05.order", "global-not-above-earlier-local", "global [%d.%d count %d] (steps %d-%d) is not above local %s [%d.%d] that completed at step %d",
-						r.phys, r.logical, r.count, r.inv, r.ret, a.alloc, a.phys, a.logical, a.ret)
+					note := ""
+					if r.view != nil && !r.view[a.alloc] {
+						note = " (" + a.alloc + " was not in the serving member's dc-location view when the global request was sent)"
+					}
+					rc.Violate("c05.order", "global-not-above-earlier-local", "global(bits=%d) [%d.%d count %d] (steps %d-%d) is not above local %s [%d.%d] that completed at step %d%s",
+						r.bits, r.phys, r.logical, r.count, r.inv, r.ret, a.alloc, a.phys, a.logical, a.ret, note)
 					return
 				}
 				if a.alloc == "global" && r.alloc != "global" && a.hi >= r.lo {
-					rc.Violate("c05.order", "local-not-above-earlier-global", "local %s [%d.%d count %d] (steps %d-%d) is not above global [%d.%d] that completed at step %d",
-						r.alloc, r.phys, r.logical, r.count, r.inv, r.ret, a.phys, a.logical, a.ret)
+					note := ""
+					if a.view != nil && !a.view[r.alloc] {
+						note = " (" + r.alloc + " was not in the serving member's dc-location view when that global request was sent)"
+					} else if o.lastElected[r.alloc] > a.inv {
+						note = " (this local allocator was elected at step " + fmt.Sprint(o.lastElected[r.alloc]) + ", after that global request had begun)"
+					}
+					rc.Violate("c05.order", "local-not-above-earlier-global", "local %s [%d.%d count %d] (steps %d-%d) is not above global(bits=%d) [%d.%d] that completed at step %d%s",
+						r.alloc, r.phys, r.logical, r.count, r.inv, r.ret, a.bits, a.phys, a.logical, a.ret, note)
 					return
 				}
 			}
@@ -414,6 +474,13 @@ func (e *Env) tsoClient(name string, o *tsoOracle, cfg tsoClientCfg, done *int) 
 			req := &pdpb.TsoRequest{Header: &pdpb.RequestHeader{ClusterId: e.ClusterID}, Count: count, DcLocation: cfg.dc}
 			inv := s.Step
 			node := target.ID
+			var view map[string]bool
+			if alloc == "global" && target.Srv != nil {
+				view = map[string]bool{}
+				for dc := range target.Srv.SimTSOManager().GetClusterDCLocations() {
+					view[dc] = true
+				}
+			}
 			if err := stream.Send(req); err != nil {
 				rc.Extra["tso_err"]++
 				closeStream()
@@ -439,7 +506,7 @@ func (e *Env) tsoClient(name string, o *tsoOracle, cfg tsoClientCfg, done *int) 
 			if e.OnTSO != nil {
 				e.OnTSO(node, inv, ret)
 			}
-			o.observe(tsResp{alloc: alloc, node: node, phys: ts.GetPhysical(), logical: ts.GetLogical(), bits: ts.GetSuffixBits(), count: count, inv: inv, ret: ret})
+			o.observe(tsResp{alloc: alloc, node: node, phys: ts.GetPhysical(), logical: ts.GetLogical(), bits: ts.GetSuffixBits(), count: count, inv: inv, ret: ret, view: view})
 			if cfg.maxGap > 0 {
 				simrt.Sleep(time.Duration(s.Choose(int(cfg.maxGap/time.Millisecond)+1, "tso.gap")) * time.Millisecond)
 			} else {
